@@ -57,6 +57,10 @@ def gen_ops():
     add("run_default_time", 'add_key(ts, "2021-03-04 05:06:07")\ndefault_time(ts)\nprobe(fi)', pt=STD_PT)
     add("run_zero_time", 'add_key(zt, 1)\nprobe(fi, zt)', pt=STD_PT)
     ops[-1]["pt_time"] = "zero"
+    # a callee that fails at run time - at a call whose pattern cannot be compiled, and in an ordinary expression: the error a run
+    # returns (message and chain of positions) is the same every time the loaded scripts are run
+    add("run_use_badregex", 'probe(1)\nif true {\nuse("b.p")\n}', pt=STD_PT, extra={"b.p": 'probe(2)\nreplace(fs, "(", "X")\nprobe(3)'})
+    add("run_use_callee_err", 'probe(1)\nuse("b.p")', pt=STD_PT, extra={"b.p": 'use("c.p")', "c.p": 'add_key(kq, 1 + nil)'})
     # reads every name an earlier script assigned (they must all be the point's keys or nil here)
     add("run_ok", 'probe(r, x, k, c, kb, nf, t2, lvl, l, w, q, i, v, ev, cv, z, zz, y1)\nadd_key(r, "second")\nprobe(fi, fs, tg, fb, message, _)', pt=STD_PT)
     return ops
